@@ -294,6 +294,14 @@ def check(recipe) -> list[Fail]:
                     return [Fail("add_implicit_hydrogens:new-atom-not-a-singly-bonded-H", f"step {step}: {h!r} bonds={len(bs)}")]
                 model.add(h, None, None)
                 model.bonds.append(frozenset((id(h), id(bs[0] % h))))
+        elif name == "sub_del_bond":
+            if n == 0:
+                continue
+            idx = sorted({i % n for i in op[1]})
+            sub = mol.substructure(idx)
+            if sub.bonds:
+                sub.del_bond(sub.bonds[op[2] % len(sub.bonds)])     # leaves the VIEW's bond list only; the molecule is unchanged
+            del sub
         elif name == "sub_write":
             if n == 0:
                 continue
@@ -342,6 +350,7 @@ def _ops(maxlen):
         st.tuples(st.just("remove_substituent"), _i, st.booleans()).map(list),
         st.just(["add_implicit_hydrogens"]),
         st.tuples(st.just("sub_write"), st.lists(_i, min_size=1, max_size=4), st.floats(-3, 3, width=32)).map(list),
+        st.tuples(st.just("sub_del_bond"), st.lists(_i, min_size=2, max_size=5), _i).map(list),
     )
     return st.lists(op, min_size=1, max_size=maxlen)
 
@@ -372,6 +381,7 @@ _ALPHA = [
     ["del_atom", "obj", 0], ["del_atom", "index", 1], ["del_atom", "label", 2], ["del_atom", "element", 0], ["del_atom", "element", 1],
     ["connect", 1, 2, 1], ["append_bond", 0, 2, 2], ["append_bond_foreign", 0, 3, True], ["append_bonds_foreign", 1, 0, False], ["extend_bonds_foreign", 2, 1, True],
     ["append_bond_readopt", 0, 0, True], ["append_bond_steal", 1, 1, False],
+    ["sub_del_bond", [0, 1, 2], 0],
     ["del_bond", 0], ["remove_substituent", 0, True], ["remove_substituent", 0, False], ["add_implicit_hydrogens"], ["sub_write", [0, 2], 1.5],
 ]
 
@@ -393,5 +403,5 @@ LEGS = [
     Leg("hist", check, classify, strategy=strat, n={"quick": 4000, "thorough": 40000}, shards={"quick": 16, "thorough": 32},
         rule="Hypothesis-generated edit histories (<=40 ops over add_atom / new_atom / del_atom by object|index|label|Element / connect / append_bond(s) / extend_bonds incl. foreign atoms / del_bond / remove_substituent / add_implicit_hydrogens / substructure write) on Molecule and Structure, started from empty, generated, cloned and bundled-mol2 molecules; " + _NT),
     Leg("short", check, classify, enumerate=enum_short, exhaustive=True, shards={"quick": 16, "thorough": 64},
-        rule="ALL op sequences of length <=3 (quick) / <=4 (thorough) over an 20-letter op alphabet from a 3-atom start x {Molecule, Structure} x {built, cloned}; " + _NT),
+        rule="ALL op sequences of length <=3 (quick) / <=4 (thorough) over an 21-letter op alphabet from a 3-atom start x {Molecule, Structure} x {built, cloned}; " + _NT),
 ]
